@@ -20,10 +20,13 @@ impl FsLocator {
 }
 
 impl PackLocatorTrait for FsLocator {
-    fn locate(&self, _uuid: Uuid, path: &str) -> Result<Option<Reader>> {
+    fn locate(&self, uuid: Uuid, path: &str) -> Result<Option<Reader>> {
         let path = self.base_dir.join(path);
         if path.is_file() {
-            Ok(Some(Reader::from(FileSource::open(path)?)))
+            // The file may be the pack itself or a container of packs.
+            // In both cases, what we are looking for is identified by its uuid.
+            let reader = Reader::from(FileSource::open(path)?);
+            Ok(super::jubako::open_as_container_pack(reader)?.get_pack_reader(&uuid))
         } else {
             Ok(None)
         }
